@@ -39,10 +39,11 @@ pub open spec fn root_ok<N, const K: usize>(a: Arena<N, K>, root: Option<usize>)
     &&& root.is_none() ==> a.dom() =~= Set::<usize>::empty()
 }
 
-// ghost depth map: existence == acyclic + every node reaches the root
+// ghost rank map, strictly increasing along child edges: existence == acyclic, and (with root_ok)
+// every node reaches the root by following parent links (lemma_reaches_root)
 pub open spec fn ranked<N, const K: usize>(a: Arena<N, K>, d: Map<usize, nat>) -> bool {
     forall|c: usize| #![trigger a[c].parent]
-        a.dom().contains(c) && a[c].parent.is_some() ==> d[c] == d[a[c].parent.unwrap()] + 1
+        a.dom().contains(c) && a[c].parent.is_some() ==> d[a[c].parent.unwrap()] < d[c]
 }
 
 pub open spec fn links_ok<N, const K: usize>(a: Arena<N, K>) -> bool {
